@@ -43,10 +43,11 @@ LEAN_TARGETS = ["NauyacaVerif.Props.C13"]
 THEOREMS = [f"NauyacaVerif.C13.{t}" for t in (
     "maxBody_tie", "maxHeader_tie", "client_resolves", "client_faithful", "client_faithful_stream", "client_seg_indep",
     "client_seg_indep_stall", "client_nonsuccess_at_header", "client_cap", "client_header_bound", "client_result_final")]
-LEAN_TARGETS = LEAN_TARGETS + ["NauyacaVerif.Props.Tr.ClientDataReceived", "NauyacaVerif.Props.Tr.DeliverHeader"]
-TRANSLATED = ["clientDataReceived", "titanClientDataReceived", "deliverHeaderOnly", "titanDeliverHeaderOnly"]
+LEAN_TARGETS = LEAN_TARGETS + ["NauyacaVerif.Props.Tr.ClientDataReceived", "NauyacaVerif.Props.Tr.DeliverHeader", "NauyacaVerif.Props.Tr.ClientParseHeader"]
+TRANSLATED = ["clientDataReceived", "titanClientDataReceived", "deliverHeaderOnly", "titanDeliverHeaderOnly", "clientParseHeader", "titanClientParseHeader"]
 THEOREMS = THEOREMS + ["NauyacaVerif.Translated.client_data_received_eq", "NauyacaVerif.Translated.titan_client_data_received_eq",
-                       "NauyacaVerif.Translated.deliver_header_only_eq", "NauyacaVerif.Translated.titan_deliver_header_only_eq", "NauyacaVerif.Translated.deliver_header_only_spec"]
+                       "NauyacaVerif.Translated.deliver_header_only_eq", "NauyacaVerif.Translated.titan_deliver_header_only_eq", "NauyacaVerif.Translated.deliver_header_only_spec",
+                       "NauyacaVerif.Translated.client_parse_header_eq", "NauyacaVerif.Translated.titan_client_parse_header_eq"]
 EXTRACT = ["maxBody", "maxHeader"]
 ASSUMPTIONS = [
     "parameters of the model (every theorem quantifies over all their behaviours): UTF-8 decoding of the header line, the text/* test on the meta, bytes.decode(charset) on the body (ok / UnicodeDecodeError / LookupError / any other exception); the harness evaluates them in Python per case and hands the results to the model",
